@@ -629,6 +629,8 @@ Plan gen_plan(uint64_t runseed) {
     p.seed = runseed; p.data_seed = r.next(); p.text_mix = r.below(4);
     bool split_class = r.below(40) == 0;           // low-rate class: a character split across two chunks
     unsigned nargs = r.below(5);
+    const bool many = r.below(20) == 0;            // low-rate class: many arguments and many segments in one call
+    if (many) nargs = 5 + r.below(8);
     if (split_class) {
         Seg f; f.type = 1; p.segs.push_back(f); p.segs.push_back(f);
         ArgSpec a; a.kind = AK_RAWBYTES; a.v = 0; p.args.push_back(a); a.v = 1; p.args.push_back(a);
@@ -641,12 +643,14 @@ Plan gen_plan(uint64_t runseed) {
             ArgSpec a; a.kind = KINDS[r.below(sizeof KINDS)]; a.v = r.below(1 << 16);
             static const uint32_t LEN[] = {0, 1, 3, 5, 15, 16, 17, 40, 300};
             a.n = LEN[r.below(9)];
+            if (r.below(30) == 0) a.n = r.below(2) ? 1100 : 5000;      // rare: text of several kilobytes
             p.args.push_back(a);
         }
         unsigned nseg = 1 + r.below(8), seq = 0;
+        if (many) nseg = 9 + r.below(24);
         for (unsigned i = 0; i < nseg; i++) {
             Seg g; unsigned w = r.below(10);
-            if (w < 4) { g.type = 0; g.src = r.below(1000); g.n = r.below(10) ? r.below(12) : 200 + r.below(200); }
+            if (w < 4) { g.type = 0; g.src = r.below(1000); g.n = r.below(10) ? r.below(12) : 200 + r.below(200); if (r.below(40) == 0) g.n = 1000 + r.below(4000); }
             else if (w == 4) g.type = 2 + r.below(2);
             else {
                 g.type = 1;
@@ -657,12 +661,21 @@ Plan gen_plan(uint64_t runseed) {
                 static const uint32_t WD[] = {0, 0, 1, 2, 5, 8, 12, 20, 40, 300};
                 g.width = WD[r.below(10)];
                 g.prec = r.below(3) ? -1 : (int32_t)r.below(13);
+                if (r.below(40) == 0) g.width = 1000 + r.below(4000);                   // rare: padding of several kilobytes
+                if (r.below(40) == 0) { static const int32_t PB[] = {40, 300, 1000}; g.prec = PB[r.below(3)]; }
                 if (nargs && r.below(4) == 0) g.index = 1 + r.below(nargs);
                 if (g.cls == 6) { g.width = 0; g.pad = 0; }         // documented precondition: no padding on a character field
                 if (!g.index) ++seq;
             }
             p.segs.push_back(g);
         }
+        // a precision beyond 12 is for text only: the numeric formatter's 64-byte block is a documented limit ("Format buffer too small")
+        { unsigned nseq = 0;
+          for (Seg &g : p.segs) if (g.type == 1) {
+              unsigned ai = g.index ? g.index - 1 : nseq++;
+              bool fl = ai < p.args.size() && (p.args[ai].kind == AK_FLOAT || p.args[ai].kind == AK_DOUBLE || p.args[ai].kind == AK_COMPLEX);
+              if (g.prec > 12 && (fl || ai >= p.args.size())) g.prec = 12;
+          } }
         // keep most calls inside the accepted domain: drop surplus sequential fields
         if (seq > nargs && r.below(8)) {
             unsigned extra = seq - nargs;
